@@ -325,6 +325,11 @@ def check_reader(p, res, im, fn):
             rr = [r for r in flow.op_roots(t["a"][0]) if r[0] == "param" and r[1] == 1]
             if rr:
                 delegs.append((bi, rr[0][2], t))
+            else:
+                # element of a receiver collection: `for key in &mut self.keys { key.read_from(reader)? }` (through into_iter / next / index_mut)
+                fld = field_of(flow, t["a"][0])
+                if fld is not None:
+                    delegs.append((bi, (fld, "[*]"), t))
         if is_io:
             fallible.append((bi, t))
     # explicit `return Err(..)`
@@ -333,6 +338,50 @@ def check_reader(p, res, im, fn):
         for s in fn.blocks[bi]["s"]:
             if s[0] == "A" and s[1] == [0] and s[2]["k"] == "Agg" and s[2].get("variant") == "Err":
                 err_blocks.append(bi)
+
+    # ---------- SER-8: the bound an incoming length is tested against survives the reader's own commit
+    # (a receiver container whose *logical* length is the bound must not be replaced / shortened by the commit: the next, larger
+    #  object that the receiver was allocated for would be rejected)
+    bound_fields = {}
+    for bi, t in fn.calls():
+        if bi not in g.reach:
+            continue
+        d = fn.callee_def(t) or {}
+        if d.get("p", "").startswith("std::vec::Vec") and d.get("n") == "len" and t["a"]:
+            rr = [r for r in flow.op_roots(t["a"][0]) if r[0] == "param" and r[1] == 1 and r[2]]
+            if not rr or not t.get("d"):
+                continue
+            # is the length compared with a stream value?
+            dst = t["d"]
+            for bj in sorted(g.reach):
+                for s2 in fn.blocks[bj]["s"]:
+                    if s2[0] == "A" and s2[2]["k"] == "Bin" and s2[2]["op"] in ("Gt", "Lt", "Ge", "Le"):
+                        a, b = s2[2]["o"]
+                        for x, y in ((a, b), (b, a)):
+                            if any(r[0] == "call" and r[1] == bi for r in flow.op_roots(x)) and taint.tainted_sources(y):
+                                bound_fields[rr[0][2][0]] = t["l"]
+    for fld, line in sorted(bound_fields.items()):
+        shr = []
+        for (bi, si, fields, rv, ln) in stores:
+            if fields == (fld,):
+                shr.append(("assigned", ln))
+        for bi, t in fn.calls():
+            d = fn.callee_def(t) or {}
+            if bi in g.reach and d.get("p", "").startswith("std::vec::Vec") and d.get("n") in ("truncate", "resize", "clear", "shrink_to_fit", "shrink_to", "drain", "split_off") and t["a"]:
+                rr = [r for r in flow.op_roots(t["a"][0]) if r[0] == "param" and r[1] == 1 and r[2] and r[2][0] == fld]
+                if rr:
+                    shr.append((d.get("n"), t["l"]))
+        if shr:
+            res.bad("SER-8", fkey, "bound-not-preserved:%s" % fld,
+                    "%s: the incoming length is tested against `self.%s.len()` (line %s) but the commit changes that length (%s): a receiver that has read a smaller "
+                    "object rejects the next object it was allocated for" % (fkey, fld, line, ", ".join("%s@l%s" % x for x in shr)), site=fn.where(line))
+        else:
+            res.ok("SER-8")
+    # positive instances of the accepted form: bound = capacity()
+    for bi, t in fn.calls():
+        d = fn.callee_def(t) or {}
+        if bi in g.reach and d.get("p", "").startswith("std::vec::Vec") and d.get("n") == "capacity":
+            res.ok("SER-8")
 
     def reach_from(b0, strict=True):
         seen = set()
@@ -364,7 +413,34 @@ def check_reader(p, res, im, fn):
                         for r in flow.op_roots(o):
                             if not (r[0] == "call" and r[1] in srcs):
                                 derived.add(r[:2])
-                if srcs <= valid and derived:
+                clamped = False
+                if derived and rv["k"] in ("Use", "Cast"):
+                    # accepted derivation: `header.min(receiver_buffer.len() / limb_len)` - the header value clamped to what the receiver holds,
+                    # with limb_len made of the dimensions committed alongside
+                    for o in rv["o"]:
+                        for r in flow.op_roots(o):
+                            if r[0] != "call":
+                                continue
+                            tm = fn.blocks[r[1]]["t"]
+                            if (fn.callee_def(tm) or {}).get("n") != "min" or len(tm["a"]) != 2:
+                                continue
+                            for cap_arg, hdr_arg in ((tm["a"][1], tm["a"][0]), (tm["a"][0], tm["a"][1])):
+                                for r2 in flow.op_roots(cap_arg):
+                                    if r2[0] != "bin":
+                                        continue
+                                    st2 = fn.blocks[r2[1]]["s"][r2[2]][2]
+                                    if st2["op"] != "Div":
+                                        continue
+                                    num_is_len = any(r3[0] == "call" and (fn.callee_def(fn.blocks[r3[1]]["t"]) or {}).get("n") == "len" for r3 in flow.op_roots(st2["o"][0])) or \
+                                        any(r3[0] == "other" for r3 in flow.op_roots(st2["o"][0]))
+                                    num_tainted = taint.tainted_sources(st2["o"][0])
+                                    den_srcs = taint.tainted_sources(st2["o"][1])
+                                    hdr_srcs = taint.tainted_sources(hdr_arg)
+                                    if num_is_len and not num_tainted and den_srcs and hdr_srcs and not (hdr_srcs & den_srcs):
+                                        clamped = True
+                if derived and clamped:
+                    res.ok("SER-2", {"reader": fkey, "field": f0, "validated": "header value clamped to receiver_buffer.len() / limb_len"})
+                elif srcs <= valid and derived:
                     res.bad("SER-2", fkey, "commit-derived:%s" % f0,
                             "%s: dimension field `%s` is committed with a value computed from the validated header field (and %s), not with the validated value itself: the capacity check no longer covers what is stored"
                             % (fkey, f0, ", ".join(sorted("%s@bb%s" % x for x in derived))), site=fn.where(line))
@@ -748,6 +824,7 @@ def run(res, tier):
     res.rule("SER-1", "tainted (stream-derived) values: no unchecked Mul/Add/Sub/shift amount, no unvalidated allocation length, slice bounds compared with the length of the very slice indexed")
     res.rule("SER-2", "a tainted value is stored into n/cols/size/max_size/rows/cols_in/cols_out only when dominated by a comparison chain ending at the receiver's buffer/capacity")
     res.rule("SER-3", "no fallible step (stream read, delegated read, return Err) is reachable after a store to a receiver metadata field or after a delegated sub-object read")
+    res.rule("SER-8", "a receiver container whose length (not capacity) bounds the incoming length is not replaced or shortened by the commit")
     res.rule("SER-7", "a scalar is not narrowed on its way to write_uN/iN, and a narrower unsigned item is not widened into a signed field on the way back")
     res.rule("SER-4", "write_to and read_from of a type perform the same ordered sequence of items")
     res.rule("SER-6", "every receiver field serialised by write_to is stored back (or read into) by read_from")
@@ -758,6 +835,7 @@ def run(res, tier):
         p = facts.load(cfg)
         res.configs.append(p.build_info)
         rd, wr = readers_writers(p)
+        o8 = res.rules["SER-8"]["obligations"]
         res.floor("SER-1", "ReaderFrom impls", len(rd), 30)
         for k in sorted(rd):
             im, fn = rd[k]
@@ -771,6 +849,7 @@ def run(res, tier):
             if f.name == "read_from" and f.impl_uid and f.trait_item is None and f.uid.startswith("poulpy_"):
                 check_reader(p, res, {"crate": f.crate}, f)
                 res.fn_count += 1
+        res.floor("SER-8", "receiver seed-table bounds", res.rules["SER-8"]["obligations"] - o8, 2)
         ser4(p, res, rd, wr)
         n6 = ser6(p, res, rd, wr)
         res.floor("SER-6", "writer/reader pairs", n6, 28)
